@@ -56,6 +56,33 @@ def one(ctx: Ctx, cs, pname, over, core=True):
     if M == 0:
         ctx.mon('documents_without_measures')
         return
+    # iteration yields exactly 1..M every time: also nested, interleaved and after an abandoned iteration
+    ctx.ev()
+    ctx.mon('iteration_protocol_checks')
+    try:
+        want = list(range(1, M + 1))
+        nested = [(a_, b_) for a_ in d for b_ in d]
+        it1, it2 = iter(d), iter(d)
+        inter = []
+        for _ in range(M):
+            inter.append((next(it1), next(it2)))
+        half = iter(d)
+        next(half)
+        after_abandoned = list(d)
+        rest_of_half = list(half)
+        probs_ = []
+        if nested != [(a_, b_) for a_ in want for b_ in want]:
+            probs_.append(f'nested iteration yields {len(nested)} pairs starting {nested[:3]}, expected {M * M}')
+        if inter != [(m_, m_) for m_ in want]:
+            probs_.append(f'two interleaved iterators yield {inter[:4]}')
+        if after_abandoned != want or rest_of_half != want[1:]:
+            probs_.append(f'after an abandoned iteration list(doc)={after_abandoned}, and the abandoned iterator continues with {rest_of_half}')
+        if list(d) != want:
+            probs_.append(f'list(doc)={list(d)}')
+        if probs_:
+            ctx.violation('iteration', f'iterating the document does not yield exactly 1..{M}: ' + '; '.join(probs_), case)
+    except Exception as ex:
+        ctx.violation('iteration', f'iteration protocol raised {type(ex).__name__}: {ex}', case)
     pickup = 'pickup' in doc.tags or 'no_opening_barline' in doc.tags
     stages.drain()
     pairs = [(a, b) for a in range(1, M + 1) for b in range(a, M + 1)]
